@@ -1630,7 +1630,9 @@ class Skel:
             b2, c2, t2 = self.expr(e.slice, env)
             v = self.fresh()
             return b1 + b2 + [(v, 'call oracle "getitem" [%s; %s]' % (self.toV(c1, t1), self.toV(c2, t2)))], v, "V"
-        if isinstance(e, (ast.ListComp, ast.JoinedStr, ast.List, ast.Dict)) or (isinstance(e, ast.Constant) and isinstance(e.value, str)):
+        if isinstance(e, (ast.ListComp, ast.JoinedStr, ast.List, ast.Dict)) or (isinstance(e, ast.Constant) and isinstance(e.value, str)) \
+                or (isinstance(e, ast.Call) and (any(isinstance(a_, ast.Starred) for a_ in e.args)
+                                                 or any(isinstance(n_, (ast.ListComp, ast.IfExp)) for a_ in e.args for n_ in ast.walk(a_)))):
             # an expression outside the subset whose value only flows on: one uninterpreted (logged) operation on its free variables
             bound = set()
             for n in ast.walk(e):
@@ -1882,6 +1884,18 @@ class Skel:
         a = f.args
         if a.vararg or a.kwarg or a.kwonlyargs or a.posonlyargs:
             raise Unsupported("argument form")
+        if isinstance(self.stop_at, tuple) and self.stop_at[0] == "from":
+            # the SUFFIX of the function: from the first top-level assignment to `name` to the end; the listed local names are
+            # its parameters (everything else it uses must be bound inside the suffix: fail closed otherwise)
+            _, name, params_ = self.stop_at
+            idx = [i for i, st in enumerate(f.body) if isinstance(st, ast.Assign) and len(st.targets) == 1
+                   and isinstance(st.targets[0], ast.Name) and st.targets[0].id == name]
+            if not idx:
+                raise Unsupported("no top-level assignment to %s" % name)
+            self.stop_at = None
+            env = {n: "V" for n in params_}
+            body = self.block(f.body[idx[0]:], env, lambda e2: (_ for _ in ()).throw(Unsupported("the function may end without return")), None)
+            return "Definition %s_result %s : M V V :=\n  %s." % (fname(f.name), " ".join("(%s : V)" % cname(n) for n in params_), body)
         # (default values only matter to callers that omit an argument; the translated function takes every parameter)
         env = {arg.arg: "V" for arg in a.args}
 
@@ -1929,7 +1943,9 @@ SKEL_TARGETS = {"main_loop": ("main_loop.py", "fit_stacked_data", "bayesian_ic",
                 "gl_optimize": ("graphical_lasso.py", "optimize_markov_random_fields", None, []),
                 "gl_setup": ("graphical_lasso.py", "_setup_optimization_task", None, []),
                 "gl_retrieve": ("graphical_lasso.py", "_retrieve_optimization_results", None, []),
-                "gl_update": ("graphical_lasso.py", "_update_cluster_covariances", None, [])}
+                "gl_update": ("graphical_lasso.py", "_update_cluster_covariances", None, []),
+                # the result assembly of the main loop (what follows the closing of the task pool)
+                "main_loop_suffix": ("main_loop.py", "fit_stacked_data", ("from", "bayesian_ic", ["current_model_state", "stacked_training_data", "num_data_points"]), [])}
 
 
 def translate_skeleton(mod, src_root):
@@ -1937,8 +1953,9 @@ def translate_skeleton(mod, src_root):
     tree = ast.parse(open(os.path.join(src_root, rel)).read())
     funcs = {n.name: n for n in tree.body if isinstance(n, ast.FunctionDef)}
     out = [SKEL_HEADER % {"src": "src/fast_ticc/" + rel, "stop": (
-        "The function is translated up to (not including) the first assignment to `%s`: what follows is result assembly." % stop_at
-        if stop_at else "The whole function is translated.")}]
+        ("The SUFFIX of the function is translated: from the first assignment to `%s` to the end." % stop_at[1]) if isinstance(stop_at, tuple)
+        else ("The function is translated up to (not including) the first assignment to `%s`: what follows is result assembly." % stop_at
+              if stop_at else "The whole function is translated."))}]
     if name not in funcs:
         out.append("  (* %s: NOT TRANSLATED - missing from the source *)\n\nEnd Gen.\n" % name)
         return "".join(out), {name: "missing from the source"}
